@@ -226,7 +226,7 @@ Print Assumptions C08_event_id_is_clock.
 
 Theorem C08_failed_call_logs_nothing :
   forall matchf applyf extractf projectf now ds c ds' e,
-    single_write c -> ~ projected_in_session ds c ->
+    single_write c ->
     step matchf applyf extractf projectf now ds c = (ds', RErr e) ->
     events (ds_cat ds') = events (ds_cat ds) /\ forall sid, routed ds' sid = routed ds sid.
 Proof. exact failed_call_logs_nothing. Qed.
@@ -235,7 +235,7 @@ Print Assumptions C08_failed_call_logs_nothing.
 Theorem C08_failed_and_noop_log_nothing :
   forall matchf applyf extractf projectf now,
     (forall ds c ds' e,
-       single_write c -> ~ projected_in_session ds c ->
+       single_write c ->
        step matchf applyf extractf projectf now ds c = (ds', RErr e) ->
        events (ds_cat ds') = events (ds_cat ds) /\ forall sid, routed ds' sid = routed ds sid) /\
     (forall c g h q s u sk li up afs now0 c' g' tr,
